@@ -49,6 +49,6 @@ def remove_indentation(source: str) -> str:
             if indent_match is not None:  # this is just for you mypy
                 spaces.append(len(indent_match[0]))
 
-    indent = min(spaces)
+    indent = min(spaces, default=0)
     lines = [l[indent:] for l in lines]
     return '\n'.join(lines)
